@@ -73,14 +73,14 @@ struct stat_s { int x; };
 int lib_fstat(int fd, struct stat_s *b) { return nondet_bool() ? -1 : 0; }
 struct ofstream { _Bool open_, failed; };
 struct type_info { int id; };
-_Bool g_f_open, g_f_flushed, g_f_renamed, g_f_order_bad; unsigned long g_f_writes_after_rename;
+_Bool g_f_open, g_f_flushed, g_f_renamed, g_f_order_bad; unsigned long g_f_writes_after_rename, g_f_nrename;
 void ofstream__open(struct ofstream *f, cstring path) { if (g_exc) return; if (nondet_bool()) { f->failed = 1; f->open_ = 0; return; } f->open_ = 1; f->failed = 0; g_f_open = 1; g_f_flushed = 0; g_f_renamed = 0; }
 _Bool ofstream__fail(struct ofstream *f) { return f->failed; }
 _Bool ofstream__is_open(struct ofstream *f) { return f->open_; }
 struct ofstream *ofstream__write(struct ofstream *f, char *p, long n) { if (g_exc) return f; if (!f->open_ || g_f_renamed) g_f_order_bad = 1; if (nondet_bool()) { f->failed = 1; g_lost = 1; } g_f_flushed = 0; return f; }
 struct ofstream *ofstream__flush(struct ofstream *f) { if (g_exc) return f; if (f->open_) g_f_flushed = 1; return f; }
 void ofstream__close(struct ofstream *f) { if (g_exc) return; f->open_ = 0; g_f_open = 0; }
-int lib_rename(char *a, char *b) { if (g_exc) return 0; if (g_f_open || !g_f_flushed || g_f_renamed) g_f_order_bad = 1; g_f_renamed = 1; return nondet_bool() ? -1 : 0; }
+int lib_rename(char *a, char *b) { if (g_exc) return 0; if (g_f_open || !g_f_flushed || g_f_renamed) g_f_order_bad = 1; g_f_renamed = 1; if (g_f_nrename < 1000) g_f_nrename++; return nondet_bool() ? -1 : 0; }
 struct type_info *any__type(struct any *v) { static struct type_info t; t.id = v->which; return &t; }
 struct type_info *typeid__str(void) { static struct type_info t; t.id = 1; return &t; }
 struct type_info *typeid__i32(void) { static struct type_info t; t.id = 2; return &t; }
